@@ -367,6 +367,9 @@ pub fn eval_c18(item: &(State, Vec<DVec3>)) -> Eval {
         };
         let init = guarded(|| ClipCell::init(&gens, i, st.norm_anchor(), st.norm_width(), st.dimensionality(), st.periodic));
         let Ok(mut cc) = init else { continue };
+        // a twin advanced through the same clips on which no integral is ever evaluated: the cell that is integrated
+        // between its clips (`cc`) must stay bitwise the cell that is not
+        let mut twin = cc.clone();
         let mut stage = 0usize;
         let mut todo: Vec<(usize, Option<DVec3>)> = seq.iter().skip(1).cloned().collect();
         todo.push((usize::MAX, None));
@@ -415,6 +418,23 @@ pub fn eval_c18(item: &(State, Vec<DVec3>)) -> Eval {
                 Ok((c2, cont)) => {
                     cc = c2;
                     max_planes = max_planes.max(cc.cell.clipping_planes.len());
+                    if let Ok(seen) = guarded(|| {
+                        twin.clip_by_neighbour(j, shift);
+                        let fresh = twin.clone();
+                        let a = cc.cell.compute_cell_integral::<(), VolumeIntegral>(()).volume;
+                        let fa: Vec<u64> = cc.cell.compute_face_integrals::<(), meshless_voronoi::integrals::AreaIntegral>(()).iter().map(|f| f.integral().area.to_bits()).collect();
+                        let b = fresh.cell.compute_cell_integral::<(), VolumeIntegral>(()).volume;
+                        let fb: Vec<u64> = fresh.cell.compute_face_integrals::<(), meshless_voronoi::integrals::AreaIntegral>(()).iter().map(|f| f.integral().area.to_bits()).collect();
+                        (a, b, fa == fb)
+                    }) {
+                        if seen.0.to_bits() != seen.1.to_bits() || !seen.2 {
+                            let case = format!("{}|cell={}|stage={}", st.id, i, stage);
+                            e.issue("integrals-between-clips-change-the-cell", &case, format!("volume {:e} of the cell that was integrated after every clip, {:e} of the same cell never integrated before (face areas equal: {})", seen.0, seen.1, seen.2), replay_text("c18", st, &[("cell", i.to_string()), ("stage", stage.to_string())]));
+                        }
+                    } else {
+                        let case = format!("{}|cell={}|stage={}", st.id, i, stage);
+                        e.issue("panic-integrating-between-clips", &case, "an integral evaluated between two clips of the same cell panicked".to_string(), replay_text("c18", st, &[("cell", i.to_string()), ("stage", stage.to_string())]));
+                    }
                     if !cont {
                         break;
                     }
